@@ -353,3 +353,140 @@ spec fn yaml12_document_prefix() -> Seq<char> { seq!['%', 'Y', 'A', 'M', 'L', ' 
 spec fn ends_with3(t: Seq<char>, a: char, b: char, c: char) -> bool {
     t.len() >= 3 && t[t.len() - 3] == a && t[t.len() - 2] == b && t[t.len() - 1] == c
 }
+
+// ---- scalar mapping keys (KeyScalarSink::serialize_str) ----
+spec fn t0_of(k: &KeyScalarSink) -> Seq<char> { k.s@ }
+/// characters that end or corrupt a double-quoted scalar if written raw: the quote, the backslash, C0/C1 controls and DEL
+/// (this includes every line break the reader normalises: LF, CR, NEL)
+spec fn key_needs_escape(c: char) -> bool { c == '"' || c == '\\' || is_cc(c) }
+/// escape written by the key path: named escapes for \ " LF CR TAB, \uXXXX for the other control characters
+spec fn kq_escape(c: char) -> Seq<char> {
+    if c == '\\' { seq!['\\', '\\'] }
+    else if c == '"' { seq!['\\', '"'] }
+    else if c == '\n' { seq!['\\', 'n'] }
+    else if c == '\r' { seq!['\\', 'r'] }
+    else if c == '\t' { seq!['\\', 't'] }
+    else if is_cc(c) { let v = c as u32; seq!['\\', 'u', hex_digit(v / 4096), hex_digit((v / 256) % 16), hex_digit((v / 16) % 16), hex_digit(v % 16)] }
+    else { seq![c] }
+}
+spec fn kq_body(s: Seq<char>) -> Seq<char>
+    decreases s.len()
+{
+    if s.len() == 0 { Seq::empty() } else { kq_body(s.drop_last()) + kq_escape(s.last()) }
+}
+/// nothing that needs escaping is written raw: every such character of the body is the head of an escape pair
+proof fn lemma_key_escape_is_safe(c: char)
+    ensures
+        key_needs_escape(c) ==> kq_escape(c).len() >= 2 && kq_escape(c)[0] == '\\',
+        !key_needs_escape(c) ==> kq_escape(c) == seq![c],
+        forall|i: int| 0 <= i < kq_escape(c).len() && !(key_needs_escape(c) && i <= 1) ==> !key_needs_escape(#[trigger] kq_escape(c)[i]),
+{
+    if is_cc(c) && c != '\n' && c != '\r' && c != '\t' {
+        let v = c as u32;
+        assert(v <= 0xFF);
+        assert(!key_needs_escape(hex_digit(v / 4096)));
+        assert(!key_needs_escape(hex_digit((v / 256) % 16)));
+        assert(!key_needs_escape(hex_digit((v / 16) % 16)));
+        assert(!key_needs_escape(hex_digit(v % 16)));
+    }
+}
+
+// ---- float text normalisation (src/zmij_format.rs) ----
+spec fn all_ascii(cs: Seq<char>) -> bool { forall|i: int| 0 <= i < cs.len() ==> (#[trigger] cs[i] as u32) < 128 }
+spec fn first_index_of(cs: Seq<char>, c: char) -> Option<int>
+    decreases cs.len()
+{
+    if cs.len() == 0 { None } else if cs[0] == c { Some(0int) } else { match first_index_of(cs.skip(1), c) { Some(i) => Some(i + 1), None => None } }
+}
+spec fn has_char(cs: Seq<char>, c: char) -> bool { exists|i: int| 0 <= i < cs.len() && cs[i] == c }
+/// position of the exponent marker: the first `e`, else the first `E`
+spec fn exp_pos(cs: Seq<char>) -> Option<int> { match first_index_of(cs, 'e') { Some(p) => Some(p), None => first_index_of(cs, 'E') } }
+spec fn mant_norm(m: Seq<char>) -> Seq<char> { if has_char(m, '.') { m } else { m + seq!['.', '0'] } }
+/// YAML float text made from formatted digits: a mantissa without a point gets `.0`, an exponent without a sign gets `+`
+spec fn float_norm(cs: Seq<char>) -> Seq<char> {
+    match exp_pos(cs) {
+        Some(p) => mant_norm(cs.subrange(0, p)) + seq![cs[p]]
+            + (if p + 1 < cs.len() && (cs[p + 1] == '+' || cs[p + 1] == '-') { Seq::<char>::empty() } else { seq!['+'] }) + cs.subrange(p + 1, cs.len() as int),
+        None => mant_norm(cs),
+    }
+}
+/// YAML 1.1 / core-schema float grammar, the two points the crate adds: a `.` before any exponent marker, and a sign
+/// right after the exponent marker
+spec fn mantissa_has_point(t: Seq<char>) -> bool {
+    match exp_pos(t) { Some(p) => has_char(t.subrange(0, p), '.'), None => has_char(t, '.') }
+}
+spec fn exponent_is_signed(t: Seq<char>) -> bool {
+    match exp_pos(t) { Some(p) => p + 1 < t.len() && (t[p + 1] == '+' || t[p + 1] == '-'), None => true }
+}
+proof fn lemma_first_index(cs: Seq<char>, c: char)
+    ensures match first_index_of(cs, c) {
+        Some(i) => 0 <= i < cs.len() && cs[i] == c && (forall|j: int| 0 <= j < i ==> cs[j] != c),
+        None => forall|j: int| 0 <= j < cs.len() ==> cs[j] != c },
+    decreases cs.len(),
+{
+    if cs.len() > 0 && cs[0] != c {
+        lemma_first_index(cs.skip(1), c);
+        match first_index_of(cs.skip(1), c) {
+            Some(i) => { assert forall|j: int| 0 <= j < i + 1 implies cs[j] != c by { if j > 0 { assert(cs.skip(1)[j - 1] == cs[j]); } } assert(cs.skip(1)[i] == cs[i + 1]); }
+            None => { assert forall|j: int| 0 <= j < cs.len() implies cs[j] != c by { if j > 0 { assert(cs.skip(1)[j - 1] == cs[j]); } } }
+        }
+    }
+}
+/// the first occurrence is determined by its defining property
+proof fn lemma_first_index_unique(cs: Seq<char>, c: char, i: int)
+    requires 0 <= i < cs.len(), cs[i] == c, forall|j: int| 0 <= j < i ==> cs[j] != c,
+    ensures first_index_of(cs, c) == Some(i),
+{
+    lemma_first_index(cs, c);
+}
+proof fn lemma_first_index_none(cs: Seq<char>, c: char)
+    requires forall|j: int| 0 <= j < cs.len() ==> cs[j] != c,
+    ensures first_index_of(cs, c) is None,
+{
+    lemma_first_index(cs, c);
+}
+/// the normalised text has its point before the exponent marker and a sign after it
+proof fn lemma_float_norm_grammar(cs: Seq<char>)
+    ensures mantissa_has_point(float_norm(cs)) && exponent_is_signed(float_norm(cs)),
+{
+    lemma_first_index(cs, 'e'); lemma_first_index(cs, 'E');
+    let t = float_norm(cs);
+    match exp_pos(cs) {
+        Some(p) => {
+            let m = mant_norm(cs.subrange(0, p));
+            let mk = cs[p];
+            // the marker of the result sits right after the normalised mantissa, and the mantissa has no marker
+            assert(t.subrange(0, m.len() as int) =~= m);
+            assert(t[m.len() as int] == mk);
+            assert forall|j: int| 0 <= j < m.len() implies t[j] != 'e' && (first_index_of(cs, 'e') is None ==> t[j] != 'E') by {
+                if j < p { assert(m[j] == cs[j]); } else { assert(m[j] == '.' || m[j] == '0'); }
+            }
+            if first_index_of(cs, 'e') is Some {
+                lemma_first_index_unique(t, 'e', m.len() as int);
+            } else {
+                assert forall|j: int| 0 <= j < t.len() implies t[j] != 'e' by {
+                    if j < m.len() { } else if j == m.len() { } else {
+                        // sign or a character of the tail of cs
+                        let k = j - m.len() - 1;
+                        if p + 1 < cs.len() && (cs[p + 1] == '+' || cs[p + 1] == '-') { assert(t[j] == cs[p + 1 + k]); }
+                        else if k == 0 { assert(t[j] == '+'); } else { assert(t[j] == cs[p + 1 + (k - 1)]); }
+                    }
+                }
+                lemma_first_index_none(t, 'e');
+                lemma_first_index_unique(t, 'E', m.len() as int);
+            }
+            assert(exp_pos(t) == Some(m.len() as int));
+            // the mantissa has a point
+            if has_char(cs.subrange(0, p), '.') { } else { assert(m[m.len() - 2] == '.'); }
+            assert(has_char(m, '.'));
+            // a sign follows the marker
+            if p + 1 < cs.len() && (cs[p + 1] == '+' || cs[p + 1] == '-') { assert(t[m.len() as int + 1] == cs[p + 1]); } else { assert(t[m.len() as int + 1] == '+'); }
+        }
+        None => {
+            let m = mant_norm(cs);
+            assert forall|j: int| 0 <= j < m.len() implies m[j] != 'e' && m[j] != 'E' by { if j < cs.len() { assert(m[j] == cs[j]); } else { assert(m[j] == '.' || m[j] == '0'); } }
+            lemma_first_index_none(m, 'e'); lemma_first_index_none(m, 'E');
+            if has_char(cs, '.') { } else { assert(m[m.len() - 2] == '.'); }
+        }
+    }
+}
